@@ -155,15 +155,19 @@ LimitPar(p) ==
 
 (* post-fit queries *)
 Fitted == sfm /\ did
+(* how the range of a profile is given: default, by confidence level (cost-cut search: _find_cost_cut) or by explicit low / high *)
+(* values (one pinned evaluation each: _get_cost_value); both go through CostCut                                               *)
+BoundKinds == {"no", "cl", "lowhigh"}
 Query(q, p, bounded) ==
   /\ Bounded("Query") /\ Fitted /\ clean
   /\ q \in {"cov", "asym", "profile", "contour", "read"}
-  /\ (q # "profile") => (p = CHOOSE x \in Pars : TRUE) /\ ~bounded
+  /\ bounded \in BoundKinds
+  /\ (q # "profile") => (p = CHOOSE x \in Pars : TRUE) /\ bounded = "no"
   /\ q = "profile" => p \notin fixU
   /\ q = "contour" => Cardinality(Pars \ fixU) >= 2
   /\ LET m == CASE q = "cov" -> QCov(M0)
                 [] q = "asym" -> QAsym(M0)
-                [] q = "profile" -> QProfile(M0, p, bounded)
+                [] q = "profile" -> QProfile(M0, p, bounded # "no")
                 [] q = "contour" -> QContour(M0)
                 [] q = "read" -> M0                      \* report, result dict, plot, to_file: reads only
      IN Apply(m)
@@ -176,7 +180,7 @@ Next ==
   \/ \E p \in Pars : FixPar(p)
   \/ \E p \in Pars : ReleasePar(p)
   \/ \E p \in Pars : LimitPar(p)
-  \/ \E q \in {"cov", "asym", "profile", "contour", "read"}, p \in Pars, b \in BOOLEAN : Query(q, p, b)
+  \/ \E q \in {"cov", "asym", "profile", "contour", "read"}, p \in Pars, b \in BoundKinds : Query(q, p, b)
 
 Spec == Init /\ [][Next]_vars
 
